@@ -43,7 +43,7 @@ def tla_ints(xs):
     return "{" + ", ".join(str(x) for x in xs) + "}"
 
 
-def mc_constants(fam, depth, grid, variant="ideal"):
+def mc_constants(fam, depth, grid, variant="ideal", asis=()):
     f = FAMILIES[fam]
     return {
         "Keys": "{" + ", ".join("abcdef"[: f["Keys"]]) + "}", "D": depth, "Kind": '"%s"' % f["Kind"],
@@ -54,6 +54,7 @@ def mc_constants(fam, depth, grid, variant="ideal"):
         "OpKinds": tla_strs(grid.get("OpKinds", f["OpKinds"])), "Sizes": tla_ints(grid.get("Sizes", f["Sizes"])),
         "ShortSizes": tla_ints(f["ShortSizes"]), "LongSizes": tla_ints(f["LongSizes"]),
         "MaxRestarts": f["MaxRestarts"], "MaxTicks": f["MaxTicks"], "Variant": '"%s"' % variant,
+        "AsIs": lib.tla_set(sorted(asis)),
     }
 
 
@@ -226,7 +227,16 @@ def model_check(ctx, kd, quick):
         ctx.cov["states"] += r["distinct"]
         ctx.cov["transitions"] += r["generated"]
         ctx.stage("mc-ideal", family=fam, depth=depth, distinct_states=r["distinct"], generated=r["generated"], wall_s=r["wall_s"])
-    # as-is: one run per invariant/alphabet so that each finding gets its own shortest witness
+    # the code-shaped machine without any defect switched on satisfies the same invariants
+    for fam, depth, grid in [("disk", 5 if quick else 6, dict(DTtl=["none", "short"]))]:
+        cfg = ctx.path(f"chk_shape_{fam}.cfg")
+        lib.write_cfg(cfg, mc_constants(fam, depth, grid, "asis", ()), "ChkInit", "ChkNext", invariants=invs,
+                      constraints=["Constr"], symmetry="Sym", view="View")
+        r = lib.tlc(ctx, MODULE_MC, cfg, timeout=1500)
+        ctx.cov["states"] += r["distinct"]
+        ctx.cov["transitions"] += r["generated"]
+        ctx.stage("mc-shape", family=fam, depth=depth, distinct_states=r["distinct"], generated=r["generated"], wall_s=r["wall_s"])
+    # one run per KNOWN finding with its defect switched on: TLC must refute the invariant and print the witness
     asis = [("F10a", "bounds", 4, dict(Policies=["lru"], MaxE=[3], MaxB=[4], Sizes=[1, 3]), "WBytesA"),
             ("F10c", "bounds", 4, dict(Policies=["lru"], MaxE=[2], MaxB=[4]), "WBytesC"),
             ("F10b", "disk", 5, dict(OpKinds=["put_ttl", "get", "tick", "restart"]), "WJudge"),
@@ -234,16 +244,19 @@ def model_check(ctx, kd, quick):
     wit = []
     model = {}
     for what, fam, depth, grid, inv in asis:
+        if what not in kd:
+            continue
         cfg = ctx.path("chk_asis.cfg")
-        lib.write_cfg(cfg, mc_constants(fam, depth, grid, "asis"), "ChkInit", "ChkNext", invariants=[inv],
+        lib.write_cfg(cfg, mc_constants(fam, depth, grid, "asis", (what,)), "ChkInit", "ChkNext", invariants=[inv],
                       constraints=["Constr"], view="View")
         r = lib.tlc(ctx, MODULE_MC, cfg, timeout=600, expect_violation=True, workers=1)
         ws = r["tagged"].get("WITNESS", [])
         model[what] = {"refuted": inv in r["invariant_violated"], "witness_ops": ws[0]["ops"] if ws else None, "depth": r.get("depth")}
         ctx.cov["states"] += r["distinct"]
         ctx.cov["transitions"] += r["generated"]
-        if ws:
-            wit.append(ws[0])
+        if not model[what]["refuted"] or not ws:
+            raise lib.ToolError(f"the as-is model with {what} switched on does not refute {inv}")
+        wit.append(ws[0])
     ctx.cov["asis_model"] = model
     ctx.stage("mc-asis", refuted={k: v["refuted"] for k, v in model.items()}, witnesses=len(wit))
     if wit:
@@ -253,6 +266,10 @@ def model_check(ctx, kd, quick):
         lib.run_driver(DRV, ["--programs", p, "--out", trace])
         v = judge_and_classify(ctx, trace, "as-is model witnesses", kd)
         ctx.cov["asis_witnesses_replayed"] = {"programs": len(wit), "deviations_on_real_code": v["devcount"], "violations": v["nviol"]}
+        gone = sorted(w for w in model if w not in v["devcount"])
+        if gone:     # informational: a listed finding whose witness the real code no longer reproduces may have been fixed
+            ctx.cov["known_findings_not_reproduced_by_witness"] = gone
+            lib.log(f"[{PROP}] note: the witness of {gone} no longer deviates on the real code - is the finding fixed?")
     return len(wit)
 
 
